@@ -436,7 +436,7 @@ def detect_variant(real, moddir):
 # --------------------------------------------------------------------------- main
 def run(ctx):
     rng = ctx.rng
-    ctx.gen_consts(["dsh", "opt"])
+    ctx.gen_consts(["dsh", "opt", "optable"])
     ctx.lean_build([PROPS, "pdshmodel"])
     ctx.audit(PROPS)
     cov = {"evaluations": 0, "distinct_nontrivial": 0, "samples": [],
@@ -452,9 +452,6 @@ def run(ctx):
                    "setting given by option or variable; distinct = distinct (personality, environment, argv)"}
     dist = {"single": 0, "combo": 0, "orders": 0, "syntax": 0, "misc": 0, "runs": 0, "accepted": 0, "rejected": 0,
             "hang": 0, "info_exit": 0, "pers": {"dsh": 0, "pdcp": 0, "rpdcp": 0}, "classes": {}}
-    src_os, mod_os = optstrings_from_source(), model_optstrings()
-    if src_os != mod_os:
-        ctx.broken.append(("C-BROKEN", "getopt strings", "opt.c has %s, the model has %s" % (src_os, mod_os)))
     repo = ctx.repo_build()
     if repo:
         os.chmod(ctx.scratch, 0o755)
